@@ -405,60 +405,28 @@ theorem IdsOK_units (ops : List AOp) : ∀ (s : St) (u : List MUnit) (fl : List 
 
 /-! ## what is durable -/
 
-/-- **`n` units are durable in state `s`**: the ghost directory of the open handle is
-    `gI ++ [(id, gl)]` (older files, then the active file), the first `m` records of the active
-    file end inside its flushed prefix (`f.synced`), and the log consisting of the older files
-    (which are completely flushed, `DInv`) and those `m` records denotes `n` units — i.e. `n` is
-    the number of units whose LAST record lies inside the flushed prefix of its file. -/
+/-- **at least `n` units are durable in state `s`**: the ghost directory of the open handle is
+    `g0 ++ [(activeId, gf)]` (older files, then the active file), the first `m` records of the
+    active file end inside its flushed prefix, and the log consisting of the older files (which
+    are completely flushed, `DInv`) and those `m` records denotes at least `n` units — i.e. at
+    least `n` units have their LAST record inside the flushed prefix of its file. -/
 def Durable (s : St) (n : Nat) : Prop :=
-  ∃ db gI id gl f m, s.db = some db ∧ Files s db (gI ++ [(id, gl)]) ∧
-    (dirOf s db).data.getLast? = some (id, f) ∧ m ≤ gl.length ∧
-    (bytesOf (gl.take m)).size ≤ f.synced ∧
-    n = (unitsOfLog (logOf (gI ++ [(id, gl.take m)]))).length
+  ∃ db g0 gf m, s.db = some db ∧ Files s db (g0 ++ [(db.activeId, gf)]) ∧ m ≤ gf.length ∧
+    (bytesOf (gf.take m)).size ≤ (activeFile s db).synced ∧
+    n ≤ (unitsOfLog (logOf (g0 ++ [(db.activeId, gf.take m)]))).length
+
+theorem Durable.mono {s : St} {n n' : Nat} (h : Durable s n) (hle : n' ≤ n) : Durable s n' := by
+  obtain ⟨db, g0, gf, m, h1, h2, h3, h4, h5⟩ := h
+  exact ⟨db, g0, gf, m, h1, h2, h3, h4, Nat.le_trans hle h5⟩
 
 /-- when every data file is completely flushed, everything the log denotes is durable -/
-theorem Durable_all {s : St} {db : DB} {g : GDir} (hs : s.db = some db) (hf : Files s db g)
+theorem Durable_all {s : St} {db : DB} {g : GDir} (hs : s.db = some db) (hf : Files s db g) (hd : DInv s db)
     (hall : AllSynced s db) : Durable s (unitsOfLog (logOf g)).length := by
   obtain ⟨g0, gf, hg, _⟩ := hf.last
-  obtain ⟨d, hd, _, hm⟩ := hf.dir
-  have hlast : (d.data.getLast?).map (fun x => (x.1, x.2.bytes)) = some (db.activeId, bytesOf gf) := by
-    have key : ∀ (data : List (Nat × FileSt)) (g : GDir), Matches data g → ∀ y, g.getLast? = some y →
-        (data.getLast?).map (fun x => (x.1, x.2.bytes)) = some (y.1, bytesOf y.2) := by
-      intro data
-      induction data with
-      | nil => intro g hm y hy; rw [Restart.Matches_nil_left] at hm; subst hm; simp at hy
-      | cons x t ih =>
-        intro g hm y hy
-        rw [Restart.Matches_cons] at hm
-        obtain ⟨z, g', rfl, e1, e2, hm'⟩ := hm
-        cases t with
-        | nil =>
-          rw [Restart.Matches_nil_left] at hm'; subst hm'
-          simp only [List.getLast?_singleton, Option.some.injEq] at hy
-          subst hy
-          simp only [List.getLast?_singleton, Option.map_some, e1, e2]
-        | cons x2 t2 =>
-          cases g' with
-          | nil => simp [Matches] at hm'
-          | cons z2 g2 =>
-            rw [List.getLast?_cons_cons] at hy ⊢
-            exact ih _ hm' y hy
-    exact key d.data g hm (db.activeId, gf) (by rw [hg, List.getLast?_concat])
-  cases hl : d.data.getLast? with
-  | none => rw [hl] at hlast; simp at hlast
-  | some x =>
-    obtain ⟨i, f⟩ := x
-    rw [hl] at hlast
-    simp only [Option.map_some, Option.some.injEq, Prod.mk.injEq] at hlast
-    obtain ⟨hi, hb⟩ := hlast
-    subst hi
-    have hmem : (db.activeId, f) ∈ (dirOf s db).data := by
-      rw [dirOf_eq hd]; exact List.mem_of_getLast? hl
-    have hsy : f.synced = f.bytes.size := hall (db.activeId, f) hmem
-    refine ⟨db, g0, db.activeId, gf, f, gf.length, hs, by rw [← hg]; exact hf, by rw [dirOf_eq hd]; exact hl,
-      Nat.le_refl _, ?_, ?_⟩
-    · rw [List.take_length, hsy, hb]; exact Nat.le_refl _
-    · rw [List.take_length, ← hg]
+  have hb : (activeFile s db).bytes = bytesOf gf := activeFile_bytes hf.dir hf.asc (by rw [hg]; simp)
+  refine ⟨db, g0, gf, gf.length, hs, by rw [← hg]; exact hf, Nat.le_refl _, ?_, ?_⟩
+  · rw [List.take_length, hall.active hd, hb]; exact Nat.le_refl _
+  · rw [List.take_length, ← hg]; exact Nat.le_refl _
 
 /-! ## the crash -/
 
@@ -504,11 +472,15 @@ theorem crash_of_RunInv {L : Nat} {cfg : Cfg} {dir : String} {s : St} {h : Hist}
   · intro hsame
     rw [hall hsame, hi.units]
   · intro n hn
-    obtain ⟨db2, gI, id, gl, f, m, hs2, hf2, hl2, hm, hsz, rfl⟩ := hn
+    obtain ⟨db2, g0, gf, m, hs2, hf2, hm, hsz, hle⟩ := hn
     rw [hi.open_] at hs2
     cases hs2
-    have hg : g = gI ++ [(id, gl)] := Files_unique hi.files hf2
-    rw [dirOf_eq hd] at hl2
-    exact (unitsOfLog_prefix (hsync gI id gl f m hg hl2 hm hsz)).length_le
+    have hg : g = g0 ++ [(db.activeId, gf)] := Files_unique hi.files hf2
+    obtain ⟨pre, f, hdata, hlt⟩ := hdinv.shape
+    have haf := active_of_shape hdata hlt
+    rw [dirOf_eq hd] at hdata
+    have hl2 : d.data.getLast? = some (db.activeId, f) := by rw [hdata, List.getLast?_concat]
+    rw [haf] at hsz
+    exact Nat.le_trans hle (unitsOfLog_prefix (hsync g0 db.activeId gf f m hg hl2 hm hsz)).length_le
 
 end XixiKV.C03H
